@@ -33,6 +33,14 @@ PREFIX = {
     "Field11S": [("lit", ":11S:"), ("str", "message_type"), ("date", "date")],
     "Field11": [("lit", ":11:"), ("str", "message_type"), ("date", "date")],
 }
+# parse side: content = prefix + six digits + suffix (canonical valid text around the date)
+PARSE_DATE = {
+    "Field30": ("", "", "execution_date"), "Field32A": ("", "USD100,00", "value_date"), "Field32C": ("", "USD100,00", "value_date"),
+    "Field32D": ("", "USD100,00", "value_date"), "Field60F": ("C", "USD100,00", "value_date"), "Field60M": ("C", "USD100,00", "value_date"),
+    "Field62F": ("C", "USD100,00", "value_date"), "Field62M": ("C", "USD100,00", "value_date"), "Field64": ("C", "USD100,00", "value_date"),
+    "Field65": ("C", "USD100,00", "value_date"),
+    "Field13D": ("", "1200+0100", "date"), "Field11S": ("103", "", "date"), "Field11R": ("103", "", "date"), "Field11": ("103", "", "date"),
+}
 CODECS = [("field13.rs", "date_format", "date"), ("field13.rs", "time_format", "time"), ("field11.rs", "date_string", "date"),
           ("field32.rs", "date_string", "date")]
 
@@ -88,6 +96,69 @@ def run(timeout_ms=120000):
             else:
                 rec["verdict"] = "sat-not-replayable"
                 rec["detail"] = str(real)[:200]
+        res.append(rec)
+    # parse side: the same six digits denote the same calendar date (50-year window) in every date-bearing field,
+    # calendar-invalid dates are rejected — executed from source (robust where Kani cannot chew a rewritten parser)
+    import fieldcheck
+    for ty, (pre, suf, comp) in sorted(PARSE_DATE.items()):
+        t0 = time.time()
+        try:
+            m = fieldcheck.FieldMachine(prog, 1)
+            digs = [z3.Int("d%d" % k) for k in range(6)]
+            for d in digs:
+                m.constraints += [d >= 0, d <= 9]
+            text = z3.Concat(z3.StringVal(pre), *[z3.StrFromCode(48 + d) for d in digs], z3.StringVal(suf)) if (pre or suf) else z3.Concat(*[z3.StrFromCode(48 + d) for d in digs])
+            parse = prog.fns[(ty, "parse", True)][0]
+            r, _ = m.call_fn(parse, [LineZ(text)], True, self_ty=ty)
+            if not isinstance(r, Res) or r.val is None:
+                raise Unsupported("parse did not return a Result with a value")
+            dv = r.val.fields[comp]
+            if not isinstance(dv, DateV):
+                raise Unsupported("component %s is not a date" % comp)
+        except Unsupported as e:
+            res.append({"type": ty, "query": "parse: same digits, same date", "verdict": "not-encoded", "detail": str(e)[:200], "time_s": 0})
+            continue
+        yy = digs[0] * 10 + digs[1]
+        mm = digs[2] * 10 + digs[3]
+        dd = digs[4] * 10 + digs[5]
+        yr = z3.If(yy <= 49, 2000 + yy, 1900 + yy)
+        valid = valid_date(yr, mm, dd)
+        # amounts in the constant suffix are taken as valid
+        if hasattr(m, "_amt_ok"):
+            m.constraints.append(z3.ForAll([z3.String("a")], m._amt_ok(z3.String("a"))))
+            m.constraints.append(z3.ForAll([z3.String("a")], z3.fpGT(m._amt_val(z3.String("a")), z3.FPVal(0.0, z3.Float64()))))
+        if hasattr(m, "_dec_ok"):
+            fa, sa = z3.FP("fa", z3.Float64()), z3.String("sa")
+            m.constraints.append(z3.ForAll([fa, sa], m._dec_ok(fa, sa)))
+        s = z3.Solver()
+        s.set("timeout", timeout_ms)
+        s.add(*m.constraints)
+        s.add(z3.Or(B(r.ok) != valid, z3.And(B(r.ok), z3.Not(z3.And(dv.y == yr, dv.m == mm, dv.d == dd)))))
+        rr = s.check()
+        rec = {"type": ty, "query": "parse: six digits -> calendar-valid date in the 50-year window, same in every field", "verdict": str(rr),
+               "time_s": round(time.time() - t0, 2)}
+        if rr == z3.sat:
+            model = s.model()
+            dstr = "".join(str(model.eval(d, model_completion=True).as_long()) for d in digs)
+            content = pre + dstr + suf
+            real = replay_batch([{"op": "field", "type": ty, "content": content}], "dev")[0]
+            y2 = int(dstr[:2])
+            want_year = 2000 + y2 if y2 <= 49 else 1900 + y2
+            import datetime
+            try:
+                datetime.date(want_year, int(dstr[2:4]), int(dstr[4:6]))
+                want_ok = True
+            except ValueError:
+                want_ok = False
+            got_date = json.dumps(real.get("json", {}))
+            iso = "%04d-%s-%s" % (want_year, dstr[2:4], dstr[4:6])
+            yymmdd = dstr
+            shows = (bool(real.get("ok")) != want_ok) or (real.get("ok") and iso not in got_date and ('"%s"' % yymmdd) not in got_date)
+            rec["witness"] = {"type": ty, "content": content, "real": real}
+            if shows:
+                rec["witness"]["why"] = "content %r: digits %s mean %s (%s) but the field gives ok=%s %s" % (content, dstr, iso, "valid" if want_ok else "not a calendar date", real.get("ok"), got_date[:120])
+            else:
+                rec["verdict"] = "sat-not-reproduced"
         res.append(rec)
     # custom JSON codecs: deserialize(serialize(v)) == v for every value a parsed field can hold
     for file, mod, kind in CODECS:
